@@ -1,1 +1,265 @@
-// harnesses for this module (included by the isomer_erbium_verif hook)
+// Kani harnesses for crates/erbium-core/src/radv/config.rs (C19: the router-advertisement section of the
+// configuration is parsed totally).  Yaml values are built by hand; mappings are either empty (no insert
+// needed) or hold one or two CONCRETE string keys (the SipHash of a concrete key folds to a constant).
+#[cfg(kani)]
+mod k {
+    use super::super::*;
+    include!(concat!(env!("ISOMER_ERBIUM_VERIF_DIR"), "/_common.rs"));
+    use yaml_rust::yaml::Yaml;
+
+    fn is_invalid_config<T>(r: &Result<T, Error>) -> bool {
+        matches!(r, Err(Error::InvalidConfig(_)))
+    }
+
+    const KIND_REAL: u8 = 0;
+    const KIND_INT: u8 = 1;
+    const KIND_STR: u8 = 2;
+    const KIND_BOOL: u8 = 3;
+    const KIND_ARR_NULL: u8 = 4; // [~]
+    const KIND_ARR_STRS: u8 = 5; // ["a", "b"]
+    const KIND_ALIAS: u8 = 6;
+    const KIND_NULL: u8 = 7;
+    const KIND_BAD: u8 = 8;
+    const KIND_ARR_EMPTY: u8 = 9; // []
+    fn yaml_of_kind(k: u8) -> Yaml {
+        match k {
+            KIND_REAL => Yaml::Real(String::from("1.5")),
+            KIND_INT => Yaml::Integer(kani::any()),
+            KIND_STR => Yaml::String(String::from("x")),
+            KIND_BOOL => Yaml::Boolean(kani::any()),
+            KIND_ARR_NULL => Yaml::Array(vec![Yaml::Null]),
+            KIND_ARR_STRS => Yaml::Array(vec![Yaml::String(String::from("a")), Yaml::String(String::from("b"))]),
+            KIND_ALIAS => Yaml::Alias(kani::any()),
+            KIND_NULL => Yaml::Null,
+            KIND_BAD => Yaml::BadValue,
+            _ => Yaml::Array(Vec::new()),
+        }
+    }
+
+    // every mapping-typed parser of the RA section on a value that is not a mapping
+    fn non_hash_on(k: u8) {
+        let y = yaml_of_kind(k);
+        let r = parse_prefix("prefixes", &y);
+        assert!(is_invalid_config(&r), "radv parse_prefix refuses a non-mapping with InvalidConfig");
+        std::mem::forget(r);
+        let r = parse_rdnss("dns-servers", &y);
+        assert!(is_invalid_config(&r), "radv parse_rdnss refuses a non-mapping with InvalidConfig");
+        std::mem::forget(r);
+        let r = parse_dnssl("dns-search", &y);
+        assert!(is_invalid_config(&r), "radv parse_dnssl refuses a non-mapping with InvalidConfig");
+        std::mem::forget(r);
+        let r = parse_pref64("pref64", &y);
+        assert!(is_invalid_config(&r), "radv parse_pref64 refuses a non-mapping with InvalidConfig");
+        std::mem::forget(r);
+        let r = parse_interface("eth0", &y);
+        assert!(is_invalid_config(&r), "radv parse_interface refuses a non-mapping with InvalidConfig");
+        std::mem::forget(r);
+        let r = parse(&y);
+        assert!(is_invalid_config(&r), "radv parse refuses a non-mapping with InvalidConfig");
+        std::mem::forget(r);
+        let r = parse_domain("domains", &y);
+        match k {
+            KIND_NULL => assert!(matches!(r, Ok(None)), "parse_domain: null is None"),
+            KIND_STR => assert!(matches!(&r, Ok(Some(s)) if s.len() == 1), "parse_domain returns the string"),
+            _ => assert!(is_invalid_config(&r), "parse_domain refuses a non-string with InvalidConfig"),
+        }
+        std::mem::forget(r);
+        std::mem::forget(y);
+    }
+
+    /// VERIF: {"p":"C19","tier":"quick","fns":["radv::config::parse_prefix","radv::config::parse_rdnss","radv::config::parse_dnssl","radv::config::parse_pref64","radv::config::parse_interface","radv::config::parse","radv::config::parse_domain","config::type_to_name"],"bounds":"each parser on one value of every non-mapping Yaml variant (Real, Integer(any), String, Boolean(any), `[~]`, `[\"a\",\"b\"]`, Alias(any), Null, BadValue); every array NON-empty","oracle":"Err(InvalidConfig) (parse_domain: string => Ok(Some), null => Ok(None)); never a panic","stubs":["alloc::fmt::format -> empty string (message text only)"],"covers":2,"unwind":6}
+    #[kani::proof]
+    #[kani::unwind(6)]
+    #[kani::stub(alloc::fmt::format, empty_format)]
+    fn c19_radv_parsers_non_mapping() {
+        let k: u8 = kani::any();
+        kani::cover!(k == 1, "integer where a mapping is expected");
+        kani::cover!(k == 5, "list where a mapping is expected");
+        match k {
+            0 => non_hash_on(KIND_REAL),
+            1 => non_hash_on(KIND_INT),
+            2 => non_hash_on(KIND_STR),
+            3 => non_hash_on(KIND_BOOL),
+            4 => non_hash_on(KIND_ARR_NULL),
+            5 => non_hash_on(KIND_ARR_STRS),
+            6 => non_hash_on(KIND_ALIAS),
+            7 => non_hash_on(KIND_NULL),
+            _ => non_hash_on(KIND_BAD),
+        }
+    }
+
+    /// VERIF: {"p":"C19","tier":"quick","fns":["radv::config::parse_prefix","radv::config::parse_rdnss","radv::config::parse_dnssl","radv::config::parse_pref64","radv::config::parse_interface","radv::config::parse","radv::config::parse_domain","config::type_to_name"],"bounds":"each parser on the empty sequence `[]` (e.g. `router-advertisements: { eth0: [] }`, `pref64: []`, `prefixes: [[]]`)","oracle":"Err(InvalidConfig), never a panic","stubs":["alloc::fmt::format -> empty string (message text only)"],"covers":1,"unwind":6}
+    #[kani::proof]
+    #[kani::unwind(6)]
+    #[kani::stub(alloc::fmt::format, empty_format)]
+    fn c19_radv_parsers_empty_array() {
+        kani::cover!(kani::any::<u8>() == 0xA5, "reached");
+        non_hash_on(KIND_ARR_EMPTY);
+    }
+
+    /// VERIF: {"p":"C19","tier":"quick","fns":["radv::config::parse_rdnss","radv::config::parse_dnssl","radv::config::parse_pref64","radv::config::parse_interface","radv::config::parse"],"bounds":"each parser on the empty mapping `{}`","oracle":"accepted with every default: no lifetime/addresses, no pref64, interface with hop-limit 0, no prefixes, nothing specified; never a panic","stubs":["alloc::fmt::format -> empty string (message text only)","std::hash::RandomState::new -> fixed keys (creating the empty Hash)"],"covers":1,"unwind":6}
+    #[kani::proof]
+    #[kani::unwind(6)]
+    #[kani::stub(alloc::fmt::format, empty_format)]
+    #[kani::stub(std::hash::RandomState::new, fixed_random_state)]
+    fn c19_radv_parsers_empty_mapping() {
+        let y = Yaml::Hash(Default::default());
+        let r = parse_rdnss("dns-servers", &y);
+        assert!(matches!(r, Ok((ConfigValue::NotSpecified, ConfigValue::NotSpecified))), "dns-servers: {} specifies nothing");
+        std::mem::forget(r);
+        let r = parse_dnssl("dns-search", &y);
+        assert!(matches!(r, Ok((ConfigValue::NotSpecified, ConfigValue::NotSpecified))), "dns-search: {} specifies nothing");
+        std::mem::forget(r);
+        let r = parse_pref64("pref64", &y);
+        assert!(matches!(r, Ok(None)), "pref64: {} is no pref64");
+        std::mem::forget(r);
+        let r = parse_interface("eth0", &y);
+        match &r {
+            Ok(Some(i)) => {
+                assert!(i.hoplimit == 0 && !i.managed && !i.other && i.prefixes.is_empty() && i.pref64.is_none(), "eth0: {} takes every default");
+                assert!(matches!(i.mtu, ConfigValue::NotSpecified) && matches!(i.lifetime, ConfigValue::NotSpecified), "eth0: {} specifies nothing");
+            }
+            _ => assert!(false, "eth0: {} is accepted"),
+        }
+        std::mem::forget(r);
+        let r = parse(&y);
+        assert!(matches!(&r, Ok(Some(c)) if c.interfaces.is_empty()), "router-advertisements: {} has no interfaces");
+        kani::cover!(r.is_ok(), "accepted");
+        std::mem::forget(r);
+        std::mem::forget(y);
+    }
+
+    /// VERIF: {"p":"C19","tier":"quick","fns":["radv::config::parse_prefix"],"bounds":"a `prefixes` entry that is the empty mapping: `prefixes: [ {} ]`","oracle":"Ok or Err(InvalidConfig) (the manual says `prefix` 'defaults to no prefix'), never a panic","stubs":["alloc::fmt::format -> empty string (message text only)","std::hash::RandomState::new -> fixed keys (creating the empty Hash)"],"covers":1,"unwind":6}
+    #[kani::proof]
+    #[kani::unwind(6)]
+    #[kani::stub(alloc::fmt::format, empty_format)]
+    #[kani::stub(std::hash::RandomState::new, fixed_random_state)]
+    fn c19_radv_parse_prefix_empty_mapping() {
+        kani::cover!(kani::any::<u8>() == 0xA5, "reached");
+        let y = Yaml::Hash(Default::default());
+        let r = parse_prefix("prefixes", &y);
+        assert!(matches!(r, Ok(_) | Err(Error::InvalidConfig(_))), "parse_prefix: a value or InvalidConfig");
+        std::mem::forget(r);
+        std::mem::forget(y);
+    }
+
+    // ---- mappings with one / two concrete keys -----------------------------------------------------------
+    fn hash1(k: &str, v: Yaml) -> Yaml {
+        let mut h = yaml_rust::yaml::Hash::new();
+        h.insert(Yaml::String(String::from(k)), v);
+        Yaml::Hash(h)
+    }
+    fn hash2(k1: &str, v1: Yaml, k2: &str, v2: Yaml) -> Yaml {
+        let mut h = yaml_rust::yaml::Hash::new();
+        h.insert(Yaml::String(String::from(k1)), v1);
+        h.insert(Yaml::String(String::from(k2)), v2);
+        Yaml::Hash(h)
+    }
+    fn ascii<const N: usize>() -> String {
+        let b: [u8; N] = kani::any();
+        let mut i = 0;
+        while i < N {
+            kani::assume(b[i] < 128);
+            i += 1;
+        }
+        String::from(std::str::from_utf8(&b).unwrap())
+    }
+
+    /// VERIF: {"p":"C19","tier":"thorough","fns":["radv::config::parse_prefix","config::parse_duration","config::parse_boolean","config::parse_string_prefix6"],"bounds":"a `prefixes` entry with exactly one key, none of them a usable `prefix`: {valid: <any i64>}, {on-link: <any bool>}, {prefix: ~}","oracle":"Ok or Err(InvalidConfig), never a panic","stubs":["alloc::fmt::format -> empty string (message text only)","std::hash::RandomState::new -> fixed keys"],"covers":1,"unwind":12}
+    #[kani::proof]
+    #[kani::unwind(12)]
+    #[kani::stub(alloc::fmt::format, empty_format)]
+    #[kani::stub(std::hash::RandomState::new, fixed_random_state)]
+    fn c19_radv_parse_prefix_without_prefix_key() {
+        let w: u8 = kani::any();
+        kani::cover!(w == 0xA5, "reached");
+        let y = match w {
+            0 => hash1("valid", Yaml::Integer(kani::any())),
+            1 => hash1("on-link", Yaml::Boolean(kani::any())),
+            _ => hash1("prefix", Yaml::Null),
+        };
+        let r = parse_prefix("prefixes", &y);
+        assert!(matches!(r, Ok(_) | Err(Error::InvalidConfig(_))), "parse_prefix: a value or InvalidConfig");
+        std::mem::forget(r);
+        std::mem::forget(y);
+    }
+
+    fn prefix_entry<const N: usize>() -> Option<u8> {
+        let mut s = String::from("fd00::/");
+        s.push_str(&ascii::<N>());
+        let y = hash2("prefix", Yaml::String(s), "valid", Yaml::Integer(kani::any()));
+        let r = parse_prefix("prefixes", &y);
+        assert!(matches!(r, Ok(Some(_)) | Err(Error::InvalidConfig(_))), "parse_prefix: a prefix or InvalidConfig");
+        let mut acc = None;
+        if let Ok(Some(p)) = &r {
+            assert!(p.addr == std::net::Ipv6Addr::new(0xfd00, 0, 0, 0, 0, 0, 0, 0) && p.onlink && p.autonomous, "address and defaults");
+            assert!(p.prefixlen <= 128, "an advertised IPv6 prefix has a length of at most 128 (RFC 4861 4.6.2: 0..128)");
+            acc = Some(p.prefixlen);
+        }
+        std::mem::forget(r);
+        std::mem::forget(y);
+        acc
+    }
+
+    /// VERIF: {"p":"C19","tier":"thorough","fns":["radv::config::parse_prefix","config::parse_string_prefix6","config::str_prefix6","config::parse_duration"],"bounds":"`prefixes` entry {prefix: \"fd00::/\" + every ASCII string of length 1,2,3, valid: <any i64>}","oracle":"Ok(prefix) or Err(InvalidConfig), never a panic; an accepted prefix length is a valid IPv6 prefix length (<= 128) since it is copied verbatim into the Prefix Information option","stubs":["alloc::fmt::format -> empty string (message text only)","std::hash::RandomState::new -> fixed keys"],"covers":1,"unwind":16}
+    #[kani::proof]
+    #[kani::unwind(16)]
+    #[kani::stub(alloc::fmt::format, empty_format)]
+    #[kani::stub(std::hash::RandomState::new, fixed_random_state)]
+    fn c19_radv_parse_prefix_accepted_lengths() {
+        let n: u8 = kani::any();
+        let acc = match n {
+            0 => prefix_entry::<1>(),
+            1 => prefix_entry::<2>(),
+            _ => prefix_entry::<3>(),
+        };
+        kani::cover!(n == 1 && acc == Some(64), "fd00::/64 accepted");
+    }
+
+    /// VERIF: {"p":"C19","tier":"thorough","fns":["radv::config::parse_interface","config::parse_duration","config::parse_num::<u8>","config::parse_num::<u32>"],"bounds":"interface mapping with exactly one key out of {hop-limit, mtu, lifetime, reachable, retransmit, max-router-advertisement-interval} whose value is Yaml::Integer(any i64)","oracle":"Ok or Err(InvalidConfig), never a panic; hop-limit accepted exactly in 0..=255, mtu exactly in 0..=2^32-1, max interval exactly in 4..=1800 s (the bounds the code's own messages quote from RFC 4861 6.2.1)","stubs":["alloc::fmt::format -> empty string (message text only)","std::hash::RandomState::new -> fixed keys"],"covers":2,"unwind":12}
+    #[kani::proof]
+    #[kani::unwind(12)]
+    #[kani::stub(alloc::fmt::format, empty_format)]
+    #[kani::stub(std::hash::RandomState::new, fixed_random_state)]
+    fn c19_radv_parse_interface_one_integer_key() {
+        let w: u8 = kani::any();
+        let i: i64 = kani::any();
+        let y = match w {
+            0 => hash1("hop-limit", Yaml::Integer(i)),
+            1 => hash1("mtu", Yaml::Integer(i)),
+            2 => hash1("lifetime", Yaml::Integer(i)),
+            3 => hash1("reachable", Yaml::Integer(i)),
+            4 => hash1("retransmit", Yaml::Integer(i)),
+            _ => hash1("max-router-advertisement-interval", Yaml::Integer(i)),
+        };
+        let r = parse_interface("eth0", &y);
+        assert!(matches!(r, Ok(Some(_)) | Err(Error::InvalidConfig(_))), "parse_interface: an interface or InvalidConfig");
+        kani::cover!(w == 0 && r.is_ok(), "hop-limit accepted");
+        kani::cover!(w == 5 && r.is_ok(), "max interval accepted");
+        match w {
+            0 => assert!(r.is_ok() == (0..=255).contains(&i), "hop-limit is an octet"),
+            1 => assert!(r.is_ok() == (0..=u32::MAX as i64).contains(&i), "mtu is a u32"),
+            2 | 3 | 4 => (),
+            _ => assert!(r.is_ok() == (4..=1800).contains(&i), "max-router-advertisement-interval accepted exactly within 4..=1800 s"),
+        }
+        std::mem::forget(r);
+        std::mem::forget(y);
+    }
+
+    /// VERIF: {"p":"C19","tier":"thorough","fns":["radv::config::parse_interface","config::parse_duration"],"bounds":"interface mapping {min-router-advertisement-interval: <any i64>}","oracle":"never a panic; accepted exactly within 3..=1350 s: the two error messages of the code itself say 'cannot be less than 3s' and 'cannot be larger than 1350s per RFC4861 section 6.2.1' (functional reading of 'a configuration or a DESCRIPTIVE error'; beyond plain totality)","stubs":["alloc::fmt::format -> empty string (message text only)","std::hash::RandomState::new -> fixed keys"],"covers":2,"unwind":12}
+    #[kani::proof]
+    #[kani::unwind(12)]
+    #[kani::stub(alloc::fmt::format, empty_format)]
+    #[kani::stub(std::hash::RandomState::new, fixed_random_state)]
+    fn c19_radv_min_interval_range() {
+        let i: i64 = kani::any();
+        let y = hash1("min-router-advertisement-interval", Yaml::Integer(i));
+        let r = parse_interface("eth0", &y);
+        assert!(matches!(r, Ok(Some(_)) | Err(Error::InvalidConfig(_))), "parse_interface: an interface or InvalidConfig");
+        kani::cover!(i == 2 && r.is_err(), "2 s refused");
+        kani::cover!(i == 1350 && r.is_ok(), "1350 s accepted");
+        assert!(r.is_ok() == (3..=1350).contains(&i), "min-router-advertisement-interval accepted exactly within 3..=1350 s");
+        std::mem::forget(r);
+        std::mem::forget(y);
+    }
+}
